@@ -16,10 +16,10 @@ use crate::actor::socket::KrpcSocket;
 pub struct PutQuery {
     pub target: Id,
     /// Nodes that confirmed success
-    stored_at: u8,
+    stored_at: usize,
     inflight_requests: Vec<u32>,
     pub request: PutRequestSpecific,
-    errors: Vec<(u8, ErrorSpecific)>,
+    errors: Vec<(usize, ErrorSpecific)>,
     extra_nodes: Box<[Node]>,
 }
 
@@ -167,7 +167,7 @@ impl PutQuery {
 
     /// Return most common error if any
     fn majority_nodes_rejected_put_mutable(&self) -> Option<ConcurrencyError> {
-        let half = ((self.inflight_requests.len() / 2) + 1) as u8;
+        let half = (self.inflight_requests.len() / 2) + 1;
 
         if matches!(self.request, PutRequestSpecific::PutMutable(_)) {
             return self.most_common_error().and_then(|(count, error)| {
@@ -186,7 +186,7 @@ impl PutQuery {
         None
     }
 
-    fn most_common_error(&self) -> Option<(u8, PutError)> {
+    fn most_common_error(&self) -> Option<(usize, PutError)> {
         self.errors
             .first()
             .and_then(|(count, error)| match error.code {
